@@ -112,6 +112,24 @@ def bounded_cases(ctx: Ctx):
                         c["chunks"] = ch
                         c["method"] = [None, "map-reduce"][(i // 2) % 2]
                     cases.append(c)
+    # every label axis reduced at once on a single-block (or batch-split) dask array: the automatic method choice is
+    # "blockwise" and the blocks are re-addressed by _collapse_blocks_along_axes (one unit axis per reduced axis)
+    for func in ["nansum", "count", "max", "nanmean"]:
+        for ashape, bnd in [((2, 3), 2), ((2, 2, 3), 3), ((2, 2, 2, 2), 3), ((2, 2, 2), 2)]:
+            for split_batch in (False, True):
+                nb = len(ashape) - bnd
+                if split_batch and nb == 0:
+                    continue
+                i += 1
+                n = int(np.prod(ashape))
+                al = [-2.0, -1.0, 0.0, 1.0, 3.0, np.nan]
+                vals = np.array([al[rng.integers(len(al))] for _ in range(n)]).reshape(ashape)
+                bshape = ashape[-bnd:]
+                lab = np.array([[10.0, 20.0, 30.0, np.nan][rng.integers(4)] for _ in range(int(np.prod(bshape)))]).reshape(bshape)
+                ax = list(range(nb, len(ashape)))
+                cases.append(dict(array=enc(vals), by=[enc(lab)], func=func, expected_groups=[[10.0, 20.0, 30.0]], axis=ax if i % 2 else [a - len(ashape) for a in ax],
+                                  fill_value=(0 if func == "count" else "nan"), engine=[None, "numpy", "flox"][i % 3],
+                                  chunks=[([1] * s if (split_batch and d < nb) else [s]) for d, s in enumerate(ashape)], method=None))
     return cases
 
 
